@@ -7,6 +7,7 @@ use serde_json::json;
 use std::io::Write;
 
 type Draw = fn() -> Vec<u8>;
+thread_local! { static REUSE: std::cell::RefCell<[u8; 96]> = std::cell::RefCell::new([0x5au8; 96]); }
 
 fn b64dec(s: &str) -> Vec<u8> {
     use base64::Engine as _;
@@ -44,6 +45,12 @@ pub fn entry_points() -> Vec<(&'static str, u8, Draw)> {
         ("DryocBox::seal ephemeral key", 0, || { let pk = StackByteArray::<32>::from(&[9u8; 32]); let b = dryoc::dryocbox::VecBox::seal_to_vecbox(b"abc", &pk).unwrap(); b.to_vec()[..32].to_vec() }),
         ("crypto_secretstream init_push header", 0, || { let mut st = cs::State::new(); let mut h = [0u8; 24]; cs::crypto_secretstream_xchacha20poly1305_init_push(&mut st, &mut h, &[1u8; 32]); h.to_vec() }),
         ("DryocStream::init_push header", 0, || { let k = StackByteArray::<32>::from(&[1u8; 32]); let (_s, h): (_, dryoc::dryocstream::Header) = dryoc::dryocstream::DryocStream::init_push(&k); h.as_slice().to_vec() }),
+        // in-place generators called again and again on the SAME buffers (what they held before must not matter)
+        ("crypto_box_keypair_inplace (reused buffers)", 0, || REUSE.with(|b| { let mut b = b.borrow_mut(); let (p, s) = b.split_at_mut(32); cb::crypto_box_keypair_inplace((&mut p[..32]).try_into().unwrap(), (&mut s[..32]).try_into().unwrap()); [&s[..32], &p[..32]].concat() })),
+        ("crypto_sign_keypair_inplace (reused buffers)", 0, || REUSE.with(|b| { let mut b = b.borrow_mut(); let (p, s) = b.split_at_mut(32); csg::crypto_sign_keypair_inplace((&mut p[..32]).try_into().unwrap(), (&mut s[..64]).try_into().unwrap()); s[..64].to_vec() })),
+        ("crypto_secretbox_keygen_inplace (reused buffer)", 0, || REUSE.with(|b| { let mut b = b.borrow_mut(); csb::crypto_secretbox_keygen_inplace((&mut b[..32]).try_into().unwrap()); b[..32].to_vec() })),
+        ("crypto_secretstream_keygen (reused buffer)", 0, || REUSE.with(|b| { let mut b = b.borrow_mut(); cs::crypto_secretstream_xchacha20poly1305_keygen((&mut b[..32]).try_into().unwrap()); b[..32].to_vec() })),
+        ("rng::copy_randombytes (reused buffer)", 0, || REUSE.with(|b| { let mut b = b.borrow_mut(); dryoc::rng::copy_randombytes(&mut b[..48]); b[..48].to_vec() })),
         // requests longer than any internal key, around the 256-byte mark and beyond (cost class 3: few calls, long values)
         ("rng::copy_randombytes 257 bytes", 3, || { let mut b = vec![0u8; 257]; dryoc::rng::copy_randombytes(&mut b); b }),
         ("rng::copy_randombytes 1000 bytes", 3, || { let mut b = vec![0u8; 1000]; dryoc::rng::copy_randombytes(&mut b); b }),
@@ -95,6 +102,61 @@ pub fn refused_entry_points() -> Vec<(&'static str, fn() -> Option<Vec<u8>>)> {
 #[cfg(not(feature = "nightly"))]
 pub fn refused_entry_points() -> Vec<(&'static str, fn() -> Option<Vec<u8>>)> { vec![] }
 
+/// cheap generators exercised while the operating system's random source fails (getrandom returns EAGAIN): a call may fail
+/// (no value); a value that IS returned must be as fresh as any other
+pub fn os_fault_names() -> Vec<String> {
+    entry_points().into_iter().filter(|e| e.1 == 0 && !e.0.contains("reused")).map(|e| format!("{} [os rng refused]", e.0)).collect()
+}
+
+/// Installs a seccomp filter that makes getrandom(2) fail with EAGAIN for this process (used in a forked child only).
+fn break_os_rng() -> bool {
+    #[repr(C)] struct SockFilter { code: u16, jt: u8, jf: u8, k: u32 }
+    #[repr(C)] struct SockFprog { len: libc::c_ushort, filter: *const SockFilter }
+    let prog = [
+        SockFilter { code: 0x20, jt: 0, jf: 0, k: 0 },                                   // A = seccomp_data.nr
+        SockFilter { code: 0x15, jt: 0, jf: 1, k: libc::SYS_getrandom as u32 },         // if A == getrandom
+        SockFilter { code: 0x06, jt: 0, jf: 0, k: 0x0005_0000 | (libc::EAGAIN as u32) }, //   return ERRNO(EAGAIN)
+        SockFilter { code: 0x06, jt: 0, jf: 0, k: 0x7fff_0000 },                         // else ALLOW
+    ];
+    let fprog = SockFprog { len: prog.len() as libc::c_ushort, filter: prog.as_ptr() };
+    unsafe {
+        if libc::prctl(libc::PR_SET_NO_NEW_PRIVS, 1, 0, 0, 0) != 0 { return false; }
+        if libc::prctl(libc::PR_SET_SECCOMP, 2 as libc::c_ulong, &fprog as *const SockFprog) != 0 { return false; }
+        // the fault is in effect?
+        let mut b = [0u8; 8];
+        libc::syscall(libc::SYS_getrandom, b.as_mut_ptr(), 8usize, 0u32) < 0
+    }
+}
+
+/// runs the cheap generators in a forked child whose OS random source is broken; returns the recorded events
+fn os_fault_events(n: usize) -> Option<Vec<serde_json::Value>> {
+    let path = format!("/tmp/conform-rngfault-{}.ndjson", std::process::id());
+    let pid = unsafe { libc::fork() };
+    if pid == 0 {
+        let mut lines: Vec<String> = vec![];
+        if !break_os_rng() { std::fs::write(&path, "UNAVAILABLE\n").ok(); unsafe { libc::_exit(0) } }
+        for (name, cost, f) in entry_points() {
+            if cost != 0 || name.contains("reused") { continue; }
+            let nm = format!("{} [os rng refused]", name);
+            for _ in 0..n {
+                match catch(|| f()) {
+                    Ok(v) => lines.push(json!({"ev": "draw", "e": nm, "v": v}).to_string()),
+                    Err(_) => lines.push(json!({"ev": "novalue", "e": nm, "v": []}).to_string()),
+                }
+            }
+            lines.push(json!({"ev": "done", "e": nm, "v": []}).to_string());
+        }
+        std::fs::write(&path, lines.join("\n") + "\n").ok();
+        unsafe { libc::_exit(0) }
+    }
+    let mut st = 0;
+    unsafe { libc::waitpid(pid, &mut st, 0) };
+    let txt = std::fs::read_to_string(&path).ok()?;
+    let _ = std::fs::remove_file(&path);
+    if txt.starts_with("UNAVAILABLE") { return None; }
+    Some(txt.lines().filter_map(|l| serde_json::from_str(l).ok()).collect())
+}
+
 fn shim(budget: i32) -> bool {
     type SetFn = unsafe extern "C" fn(i32);
     unsafe {
@@ -110,6 +172,7 @@ fn shim(budget: i32) -> bool {
 pub fn cmd_list(_args: &[String]) {
     for (n, _, _) in entry_points() { println!("{}", n); }
     for (n, _) in refused_entry_points() { println!("{}", n); }
+    for n in os_fault_names() { println!("{}", n); }
 }
 
 /// `rng-trace <out.ndjson> <n cheap> <n pwhash> <n default-cost>`
@@ -127,6 +190,19 @@ pub fn cmd_trace(args: &[String]) {
             }
         }
         writeln!(out, "{}", json!({"ev": "done", "e": name, "v": []})).unwrap();
+    }
+    // the OS random source fails (seccomp filter in a forked child): a call may fail, a returned value must be fresh
+    match os_fault_events(8) {
+        Some(evs) => {
+            let names = os_fault_names();
+            for e in evs.iter() { writeln!(out, "{}", e).unwrap(); }
+            // a generator the child never reached (it died) is closed without calls
+            for nm in names { if !evs.iter().any(|e| e["e"] == nm.as_str() && e["ev"] == "done") { writeln!(out, "{}", json!({"ev": "done", "e": nm, "v": []})).unwrap(); } }
+        }
+        None => {
+            eprintln!("NOTE: seccomp filter not available here; generators under a failing OS random source are not exercised");
+            for nm in os_fault_names() { writeln!(out, "{}", json!({"ev": "done", "e": nm, "v": []})).unwrap(); }
+        }
     }
     // locks refused (nightly): needs the mlock interposer
     let refused = refused_entry_points();
